@@ -59,7 +59,7 @@ def prepare_two_qubit_state_using_sqrt_iswap(
     state_vector = qis.to_valid_state_vector(state, num_qubits=2)
     state_vector = state_vector / np.linalg.norm(state_vector)
     u, s, vh = np.linalg.svd(state_vector.reshape(2, 2))
-    if np.isclose(s[0], 1):
+    if np.isclose(s[1], 0, atol=1e-8):
         # Product state can be prepare with just single qubit unitaries.
         return _1q_matrices_to_ops(u, vh.T, q0, q1, True)
     alpha = np.arccos(np.sqrt(np.clip(1 - s[0] * 2 * s[1], 0, 1)))
@@ -93,7 +93,7 @@ def prepare_two_qubit_state_using_cz(
     state_vector = qis.to_valid_state_vector(state, num_qubits=2)
     state_vector = state_vector / np.linalg.norm(state_vector)
     u, s, vh = np.linalg.svd(state_vector.reshape(2, 2))
-    if np.isclose(s[0], 1):
+    if np.isclose(s[1], 0, atol=1e-8):
         # Product state can be prepare with just single qubit unitaries.
         return _1q_matrices_to_ops(u, vh.T, q0, q1, True)
     alpha = np.arccos(np.clip(s[0], 0, 1))
@@ -127,7 +127,7 @@ def prepare_two_qubit_state_using_iswap(
     state_vector = qis.to_valid_state_vector(state, num_qubits=2)
     state_vector = state_vector / np.linalg.norm(state_vector)
     u, s, vh = np.linalg.svd(state_vector.reshape(2, 2))
-    if np.isclose(s[0], 1):
+    if np.isclose(s[1], 0, atol=1e-8):
         # Product state can be prepare with just single qubit unitaries.
         return _1q_matrices_to_ops(u, vh.T, q0, q1, True)
     alpha = np.arccos(np.clip(s[0], 0, 1))
